@@ -320,7 +320,8 @@ impl Group for C12Node {
             .split('|').map(|s| s.to_string()).collect(),
             // overlapping invoice approvals across a bucket boundary (defect F25: the clock was read before the lock)
             "n_new 1000000 h|n_race 1600000000 600000 1600000400 600000".split('|').map(|s| s.to_string()).collect(),
-            "n_new 1000000 h|n_keysend 1600000000 100|n_race 1600000100 600000 1600000100 600000".split('|').map(|s| s.to_string()).collect()]
+            "n_new 1000000 h|n_keysend 1600000000 100|n_race 1600000100 600000 1600000100 600000".split('|').map(|s| s.to_string()).collect(),
+            "n_new 1000000 h|n_race 1600000000 600000 1600000400 600000 k".split('|').map(|s| s.to_string()).collect()]
     }
     fn model_line(&self, op: &str) -> Option<String> {
         let t: Vec<&str> = op.split_whitespace().collect();
@@ -371,7 +372,7 @@ impl Group for C12Node {
             let a = *rng.pick(&[limit / 2 + 1, limit, limit / 3 + 1, 1]);
             let b = *rng.pick(&[limit / 2 + 1, limit, 1]);
             let dt = *rng.pick(&[0u64, 1, bi - 1, bi, bi + 1, 3 * bi, (n - 1) * bi]);
-            if a > 0 && b > 0 { ops.push(format!("n_race {} {} {} {}", t, a, t + dt, b)); }
+            if a > 0 && b > 0 { ops.push(format!("n_race {} {} {} {}{}", t, a, t + dt, b, if rng.chance(1, 2) { " k" } else { "" })); }
         }
         ops
     }
@@ -506,7 +507,10 @@ impl Group for C12Node {
                         }
                     }
                 }
-                ["n_race", ta, aa, tb, ab] => {
+                ["n_race", ta, aa, tb, ab, ..] => {
+                    // 6th token `k`: request A is a keysend approval (its pre-lock clock read is the one that stamps
+                    // the payment), otherwise an invoice approval
+                    let a_keysend = t.get(5) == Some(&"k");
                     // two overlapping invoice approvals: A reads the clock at ta and is preempted before it takes
                     // the node state; B (at tb >= ta) runs completely; A continues.  Whatever the order the signer
                     // serialises them in, the approved amounts must respect the window bound (and nothing panics).
@@ -527,7 +531,7 @@ impl Group for C12Node {
                             *rb.lock().unwrap() = n2.add_invoice(inv_b).ok();
                         }));
                     }
-                    let ra = n.add_invoice(mk_invoice(ha, ta, aa, 43)).ok();
+                    let ra = if a_keysend { n.add_keysend(make_test_pubkey(1), PaymentHash(ha), aa).ok() } else { n.add_invoice(mk_invoice(ha, ta, aa, 43)).ok() };
                     let rb = *res_b.lock().unwrap();
                     let (limit, wlen) = match &cur_spec {
                         Some((l, ty)) if ty == "d" => (*l, 23 * 3600u64),
